@@ -276,6 +276,16 @@ func getSignedHeader(blockStore BlockStore, height int64) (*types.SignedHeader, 
 		return nil, fmt.Errorf("don't have header at height #%d", height)
 	}
 	commit := blockStore.LoadBlockCommit(height)
+	if commit == nil && height == blockStore.Height() {
+		// The canonical commit of the latest block only arrives with the next block;
+		// until then the store holds the commit this node saw for it. The forward
+		// lunatic check above asks for exactly that height.
+		if sc, ok := blockStore.(interface {
+			LoadSeenCommit(height int64) *types.Commit
+		}); ok {
+			commit = sc.LoadSeenCommit(height)
+		}
+	}
 	if commit == nil {
 		return nil, fmt.Errorf("don't have commit at height #%d", height)
 	}
